@@ -264,7 +264,15 @@ def execute(trace, ctx=None):
 
     def do_read(T, what):
         state['reads'] += 1
-        r = lib(lambda: bi_read(store, asof=T, what=what), 'bi_read(asof=%s, what=%s)' % (T, what))
+        Tl = T                     # the form the reader passes the as-of time in: datetime, pandas Timestamp or numpy datetime64
+        if state['reads'] % 5 == 3:
+            Tl = pd.Timestamp(T)
+            res.probe('asof-as-Timestamp')
+        elif state['reads'] % 5 == 4:
+            import numpy as np
+            Tl = np.datetime64(T)
+            res.probe('asof-as-datetime64')
+        r = lib(lambda: bi_read(store, asof=Tl, what=what), 'bi_read(asof=%r, what=%s)' % (Tl, what))
         if not isinstance(r, pd.Series):
             raise Violation('read-shape', 'bi_read of a series store returned %s' % type(r).__name__, state['step'])
         if not r.index.is_unique:
@@ -367,6 +375,11 @@ def execute(trace, ctx=None):
                         new_store = lib(lambda: bi_merge(None, s), 'bi_merge(None, series)')
                         res.probe('implicit-now-stamp')
                         msg = new_store
+                    elif len(op['vals']) % 3 == 0:
+                        # the un-stamped series and its stamp handed over together (also as the very first publication)
+                        new_store = lib(lambda: bi_merge(store, s, asof=stamp), 'bi_merge(store, series, asof=stamp)')
+                        res.probe('plain-series-with-asof' + ('-first' if store is None else ''))
+                        msg = lib(lambda: Bi(s, stamp), 'Bi(series, stamp)')
                     else:
                         msg = lib(lambda: Bi(s, stamp), 'Bi(series, stamp)')
                         new_store = lib(lambda: bi_merge(store, msg), 'bi_merge')
@@ -579,6 +592,8 @@ def _check_store(store, model, k):
     if store is None:
         return
     import pandas as pd
+    if not isinstance(store, pd.DataFrame):
+        raise Violation('store-shape', 'bi_merge returned a %s without stamps' % type(store).__name__, k)
     if 'updated' not in store.columns:
         raise Violation('store-shape', 'merged store lost its stamp column', k)
     pairs = list(zip(store.index, store['updated']))
